@@ -170,7 +170,7 @@ Definition b_step (star cooked : bool) (s : bus) (st : stim) : bus * list obs :=
         (b_drop_all
            (set_b_amb
               (set_b_br (set_b_rqlen (set_b_rq s []) (Z.to_N v))
-                        (map (fun b => {| br_t := br_t b; br_due := due_at (b_now s) (b_rexp s) |}) (b_br s)))
+                        (b_br s))      (* they keep the deadline of their call (repaired in /repo: the timer was restarted) *)
               (b_amb s || several (b_br s)))     (* woken RecvMsg calls block again in any order *)
            (map fst (b_rxw s)),
          map (fun e => OPipeClose (fst e)) (b_rxw s) ++ [ORet t ROk])
